@@ -127,7 +127,9 @@ def loops_of(fnode):
 def loop_fingerprint(node):
     if isinstance(node, ast.While):
         return 'while ' + ast.unparse(node.test)
-    return 'for ' + ast.unparse(node.target) + ' in ' + ast.unparse(node.iter)
+    t = node.target
+    ts = ', '.join(ast.unparse(x) for x in t.elts) if isinstance(t, ast.Tuple) else ast.unparse(t)
+    return 'for ' + ts + ' in ' + ast.unparse(node.iter)
 
 
 def is_logger_call(node):
